@@ -251,6 +251,13 @@ func runC15(rep *TReport, raw json.RawMessage) {
 					key = rk2
 				}
 			}
+		case "same_family_other": // the same (registered or other) key under another algorithm of its family
+			switch regalg {
+			case "RS256":
+				alg = "PS256"
+			case "PS256":
+				alg = "RS256"
+			}
 		case "HS256":
 			alg, key = "HS256", []byte("secret-of-J-secret-of-J-secret-of-J")
 		case "none":
